@@ -277,7 +277,11 @@ theorem _root_.Cao.Sim.StackIs.last {st : VStack Val} {cap : Nat} {l : List Val}
 theorem _root_.Cao.Sim.StackIs.clearUntil {st : VStack Val} {cap : Nat} {top below : List Val} (h : StackIs st cap (top ++ below)) :
     StackIs (st.clearUntil below.length).1 cap below := by
   obtain ⟨hc, hcap, hl⟩ := h
-  refine ⟨rfl, hcap, ?_⟩
+  have hcnt : (st.clearUntil below.length).1.count = below.length := by
+    simp only [VStack.clearUntil]; rw [hc, List.length_append]; split <;> omega
+  refine ⟨hcnt, hcap, ?_⟩
+  show (st.clearUntil below.length).1.data.take (st.clearUntil below.length).1.count = below.reverse
+  rw [hcnt]
   show st.data.take below.length = below.reverse
   have : st.data.take below.length = (st.data.take st.count).take below.length := by
     rw [List.take_take]; congr 1
